@@ -51,6 +51,7 @@ type Spec struct {
 	mute         bool
 	reopened     bool // the handle was closed / abandoned and reopened at least once
 	prevOp        string
+	repairPhase   int // 1: the last non-observing call was a Repair without error; 2: and Control then succeeded (any history)
 	rejectedSeen  bool // a write call of this history was rejected for a logical reason (unique, invalid, json ...)
 	lastAll       map[int]string // what the last All returned, by uuid number (nil: not fresh any more)
 	damaged       bool   // an object file or schema.json was damaged from outside in a way Repair does not undo
@@ -850,6 +851,22 @@ func (s *Spec) stateOracles(e *Exec, t, r []string) {
 	}
 	switch t[0] {
 	case "repair":
+		s.repairPhase = 0
+		if r[0] == "ok" {
+			s.repairPhase = 1
+		}
+	case "control":
+		if s.repairPhase == 1 && r[0] == "ok" {
+			s.repairPhase = 2
+		} else if s.repairPhase != 2 {
+			s.repairPhase = 0
+		}
+	case "count", "all", "dump", "fs", "schema":
+	default:
+		s.repairPhase = 0
+	}
+	switch t[0] {
+	case "repair":
 		s.repairedOK, s.afterRepair, s.wantSweep = 0, "", ""
 		if r[0] == "ok" && !s.damaged {
 			s.repairedOK = 1
@@ -1181,7 +1198,12 @@ func (s *Spec) committed(e *Exec) {
 // "after Repair ... searches agree with file contents" (C05/C11), "a cached read returns a value equal to
 // a file round trip" (C14)
 func (s *Spec) readsAreFiles(e *Exec) {
-	if s.lastAll == nil || e.cfg.Async || s.faulted || s.crashCtx != "" || s.mute || s.variant > 1 {
+	if s.lastAll == nil || e.cfg.Async || s.mute || s.variant > 1 {
+		return
+	}
+	// after a storage fault or a crash: only once Repair and then Control have succeeded
+	// ("after Repair, Control succeeds and searches agree with file contents")
+	if (s.faulted || s.crashCtx != "") && s.repairPhase != 2 {
 		return
 	}
 	for _, l := range e.obs {
@@ -1193,7 +1215,7 @@ func (s *Spec) readsAreFiles(e *Exec) {
 			}
 			if tok, ok := s.lastAll[u]; ok && tok != f[3] {
 				s.fail(e, "C11", "synchronous mode, nothing pending: All returns for object #%d a content that is not the content of its file: read %.120s file %.120s", u, tok, f[3])
-				if s.reopened || s.outside {
+				if s.reopened || s.outside || s.crashCtx != "" {
 					s.fail(e, "C05", "[after repair or reopen] All returns for object #%d a content that is not the content of its file", u)
 				}
 				return
